@@ -100,7 +100,20 @@ func observeC17(r *astRun) c17Obs {
 	if gr.err != nil {
 		return c17Obs{Failed: true, Types: []typeCmp{{Ref: noRef, Pgs: gr.err.Error()}}}
 	}
-	ctx := pgsgo.InitContext(pgs.ParseParameters(r.w.Param))
+	params := pgs.ParseParameters(r.w.Param)
+	ctx := pgsgo.InitContext(params)
+	if len(r.w.Files)%2 == 0 {
+		// the context exists first, the path mode is set afterwards - `SetPaths` is the documented
+		// runtime override; what counts is the mode in force when a path is asked for
+		late := pgs.Parameters{}
+		if pgsgo.Paths(params) == pgsgo.SourceRelative {
+			pgsgo.SetPaths(late, pgsgo.ImportPathRelative)
+		} else {
+			pgsgo.SetPaths(late, pgsgo.SourceRelative)
+		}
+		ctx = pgsgo.InitContext(late)
+		pgsgo.SetPaths(late, pgsgo.Paths(params))
+	}
 	// protogen fields by reference
 	fields := map[string]*protogen.Field{}
 	owner := map[string]*protogen.File{}
@@ -280,7 +293,14 @@ func goCuratedWorlds() []wWorld {
 	twin := wMsg{Head: mh("Item", f("reset", 1), of("string", 2, 0), of("item", 3, 0)), Nested: []wMsg{{Head: mh("Item"), Nested: []wMsg{}}}}
 	twin.Head.Oneofs = []string{"descriptor"}
 	v1b.Msgs = []wMsg{twin}
+	// the same bare-name go_package in two directories: the import path of such a file is its OWN
+	// directory, so the two are different Go packages with the same name
+	sa := emptyF("alpha/a.proto", "sh.a", "shared")
+	sa.Msgs = []wMsg{{Head: mh("A", f("x", 1)), Nested: []wMsg{}}}
+	sb := emptyF("beta/b.proto", "sh.b", "shared", "alpha/a.proto")
+	sb.Msgs = []wMsg{{Head: mh("B", wField{Name: "a", Number: 1, Label: 1, Type: 11, TypeName: ".sh.a.A"}), Nested: []wMsg{}}}
 	return []wWorld{{Files: []wFile{fl}, Targets: []string{"probe.proto"}},
+		{Files: []wFile{sa, sb}, Targets: []string{"alpha/a.proto", "beta/b.proto"}},
 		{Files: []wFile{r0, r1, r2}, Targets: []string{"f1.proto", "dir0/f2.proto"}},
 		{Files: []wFile{p3}, Targets: []string{"probe3.proto"}},
 		{Files: []wFile{v1a, v1b}, Targets: []string{"acme/a/v1/item.proto", "acme/b/v1/item.proto"}},
